@@ -30,8 +30,18 @@ Domain
 A generator that refuses a grammar (`CodegenError`) is counted as skipped and reported in `samples`: the
 documentation does not say which grammars the generator must accept.
 
-Failures are grouped into classes (see `classify`); the class `unclassified/...` names the node kinds of the
-grammar so that nothing is hidden in another class.
+Failures are grouped into classes (see `classify`), one Item per class with the smallest witness:
+  skipto-body-not-passed-as-closure      `with ctx.skipto():` is emitted without `as cl` / `@cl.exp` (D26)
+  name-binds-last-node-of-group          x:('a' 'b') binds 'b' in generated code (D5)
+  name-binds-stale-previous-node         a name / override whose operand appends nothing binds the previous element (D25)
+  void-or-lookahead-value-differs        x:() / x:&e: the model binds () / the value of e, generated code None (docs silent)
+  names-predefined-by-sequences-only     an optional / an option that is not a sequence pre-defines its names in the model only
+  sequence-does-not-predefine-its-names  (not on the unchanged tree) a sequence's `ctx.define` is missing
+  text-None-skipped-as-comment           comments=r'None' is emitted when the grammar has no comments pattern
+  based-rule-base-expression-not-generated, rule-parameter-differs-in-generated-parser (Name::Base cut to Name),
+  parseinfo-directive-ignored-by-generated-parser, rule-names-collide-after-python-safe-renaming (class / class_),
+  generator-raises-<Exc>, generated-source-is-not-valid-python, internal-override-key-in-ast (model side, known C01 finding),
+  <who>-accepts-<who>-rejects/<node kinds> and ast-differs/<node kinds>: anything not explained above.
 
 This module also hosts the helpers shared by bC03 / bC04 / bC09 / bC11 (`load_generated`, `outcome`, `canon`).
 """
@@ -374,7 +384,7 @@ def description_grammars(tier, seed):
     """[(label, desc, alphabet)]: label 'desc' (seeded sample), 'matrix' (naming matrix), 'cut' (CUT_GRAMMARS)"""
     rnd = random.Random(seed)
     out = []
-    n1, n2, n3 = (30, 35, 25) if tier == 'quick' else (450, 450, 300)
+    n1, n2, n3 = (22, 26, 18) if tier == 'quick' else (450, 450, 300)
     pool1 = G.single_rule(3)
     pool4 = G.single_rule(4, 'core', exact=True)
     pool2 = G.two_rule(2, 2)
@@ -505,6 +515,11 @@ def classify(text, src, kinds, opmap, inp, sval, m, g, rerun):
         return 'void-or-lookahead-value-differs' if inside & {'Void', 'Lookahead'} else 'name-binds-last-node-of-group'
     if ops & ({'Optional'} | VALUELESS):
         return 'name-binds-stale-previous-node' if _none_on_model_side(m[1], g[1]) else 'void-or-lookahead-value-differs'
+    if 'Call' in ops:
+        # the differing value comes from a called rule: look at what that grammar binds anywhere
+        everywhere = set().union(*(v for k, v in opmap.items() if isinstance(k, tuple) and k[0] == 'below'))
+        if everywhere & {'Void', 'Lookahead'}:
+            return 'void-or-lookahead-value-differs'
     if any(kind == 'missing' for kind, _k in d):
         missing = {k for kind, k in d if kind == 'missing' and k is not None}
         if ('missing', None) in d:
@@ -660,7 +675,8 @@ def run(tier='quick', seed=0, info=None):
         text = S.to_text(d)
         plan = []
         for n, sv in SETTINGS:
-            ins = long_[alpha] if n in full and (label != 'matrix' or tier != 'quick') else short[alpha]
+            whole = n in full and (tier != 'quick' or label == 'desc' or (label == 'cut' and n == 'nameguard-off'))
+            ins = long_[alpha] if whole else short[alpha]
             if label == 'cut':
                 if n == 'whitespace-override':
                     sv = {'whitespace': '[ c]+'}
@@ -669,7 +685,7 @@ def run(tier='quick', seed=0, info=None):
             plan.append((n, sv, ins))
         work.append((label, text, plan))
     t0 = time.time()
-    res = _merge(pmap(_work, chunked(work, JOBS * 4)))
+    res = _merge(pmap(_work, chunked(work, JOBS * 12)))
     kinds = G.kinds_covered([d for _l, d, _a in descs])
     items += _items('description-grammars', *res,
                     domain=f'{len(descs)} grammar descriptions rendered to text (seeded sample of grammars.single_rule(3), '
@@ -677,8 +693,9 @@ def run(tier='quick', seed=0, info=None):
                            f'override / list override x 24 operand kinds, alone and after a token; all {len(G.CUT_GRAMMARS)} '
                            f'CUT_GRAMMARS; node kinds covered: {len(kinds)}/{len(G.ALL_KINDS)}) x ALL {len(long_[ALPHA_DESC])} '
                            f'strings over {{a,b,A,blank}} (cut grammars: {{a,b,c,blank}}) of length <= {MAXLEN} x '
-                           f'{len(SETTINGS)} parse-time settings ({", ".join(n for n, _ in SETTINGS)}); in the quick tier the settings '
-                           f'other than {full} get the {len(short[ALPHA_DESC])} strings of length <= {MAXLEN - 1}',
+                           f'{len(SETTINGS)} parse-time settings ({", ".join(n for n, _ in SETTINGS)}); in the quick tier only the '
+                           f'sampled grammars under {full} and the cut grammars under nameguard-off get the whole battery, the '
+                           f'rest the {len(short[ALPHA_DESC])} strings of length <= {MAXLEN - 1}',
                     bound=f'input length <= {MAXLEN}; grammars <= 5 nodes per rule, <= 2 rules (cut grammars larger)',
                     exhaustive=False)
     summary.append(('description-grammars', res[0], time.time() - t0))
